@@ -698,6 +698,43 @@ func TestC01(t *testing.T) {
 		return c01Case{What: "attribute-combination", Path: strings.Join(names, "+"), Load: loadCase{Files: []memFile{{Name: "compose.yaml", Content: emitYAML(doc, nil)}}, Main: []string{"compose.yaml"}, Env: map[string]string{"S": "v"}}}
 	}, c01Check, true)
 
+	// (1d) tags on every level of a document: the root, a top-level section, a service, a scalar; in the only
+	// document, in an override file and in a second `---` document
+	var tagged []c01Case
+	for _, tg := range []string{"!reset", "!override", "!!map", "!!str", "!custom", "!!binary", "!!null"} {
+		docs := map[string]string{
+			"root-empty":      tg + " {}\n",
+			"root-null":       tg + "\n",
+			"root-mapping":    tg + "\nservices:\n  a:\n    image: x\n",
+			"root-scalar":     tg + " text\n",
+			"root-sequence":   tg + " [a, b]\n",
+			"services":        "services: " + tg + "\n  a:\n    image: x\n",
+			"services-empty":  "services: " + tg + " {}\n",
+			"service":         "services:\n  a: " + tg + "\n    image: x\n",
+			"service-null":    "services:\n  a: " + tg + "\n",
+			"scalar":          "services:\n  a:\n    image: " + tg + " x\n",
+			"key":             "services:\n  " + tg + " a:\n    image: x\n",
+			"sequence-item":   "services:\n  a:\n    image: x\n    command:\n      - " + tg + " echo\n      - hi\n",
+			"all-items":       "services:\n  a:\n    image: x\n    command:\n      - " + tg + " echo\n",
+			"name":            "name: " + tg + " proj\nservices:\n  a:\n    image: x\n",
+			"include":         "include: " + tg + "\n  - inc.yaml\nservices:\n  a:\n    image: x\n",
+			"anchored":        "x-a: &anc " + tg + "\n  k: v\nservices:\n  a:\n    image: x\n    labels: *anc\n",
+			"merge-key":       "x-a: &anc\n  k: v\nservices:\n  a:\n    image: x\n    labels:\n      <<: " + tg + " *anc\n",
+		}
+		base := "services:\n  a:\n    image: base\n    command: [one, two]\n    labels: {k: base}\n"
+		for _, where := range sortedStrKeys(docs) {
+			d := docs[where]
+			mk := func(pos string, files []memFile, main []string) {
+				tagged = append(tagged, c01Case{What: "tagged-document", Path: tg + ":" + where, Position: pos, Load: loadCase{Files: append(files, memFile{Name: "inc.yaml", Content: "services:\n  inc:\n    image: i\n"}), Main: main}, OnDisk: true})
+			}
+			mk("alone", []memFile{{Name: "compose.yaml", Content: d}}, []string{"compose.yaml"})
+			mk("override", []memFile{{Name: "compose.yaml", Content: base}, {Name: "override.yaml", Content: d}}, []string{"compose.yaml", "override.yaml"})
+			mk("second-document", []memFile{{Name: "compose.yaml", Content: base + "---\n" + d}}, []string{"compose.yaml"})
+			mk("first-document", []memFile{{Name: "compose.yaml", Content: d + "---\n" + base}}, []string{"compose.yaml"})
+		}
+	}
+	RunEnum(c, t, "tagged-documents", len(tagged), func(i int) c01Case { return tagged[i] }, c01Check, true)
+
 	// (3) reference cycles
 	cyc := c01CycleCases()
 	RunEnum(c, t, "reference-cycles", len(cyc), func(i int) c01Case { return cyc[i] }, c01Check, true)
